@@ -423,7 +423,17 @@ func genUnit(r *rand.Rand, kind string, tables []*Table, gp GenParams, ts *uint3
 	add := func(e *Ev) { u.Evs = append(u.Evs, e) }
 	stmt := func(inside bool) {
 		t := tables[r.Intn(len(tables))]
-		switch r.Intn(7) {
+		switch r.Intn(8) {
+		case 7:
+			if !inside {
+				add(&Ev{K: "tablemap", TS: next(), Tbl: t, Tail: optTail(r)})
+				add(genRowsEv(r, pickS(r, "write", "update", "delete"), t, gp, next()))
+				break
+			}
+			// a DDL statement logged INSIDE the transaction (CREATE / DROP TEMPORARY TABLE do not commit implicitly): one more
+			// change of the transaction, not a commit point
+			add(&Ev{K: "query", TS: next(), Cat: "ddl", DB: t.DB,
+				SQL: randCase(r, pickS(r, "create", "drop")) + " temporary table tmp_" + randName(r, 3) + pickS(r, " (a int)", "")})
 		case 0:
 			add(&Ev{K: "query", TS: next(), Cat: "dml", DB: t.DB,
 				SQL: randCase(r, pickS(r, "insert", "update", "delete")) + " " + t.Name + " /* stmt */"})
